@@ -63,7 +63,7 @@ def build_frame(op: dict[str, Any]) -> bytes:
                             tpci_apci=W.gv_write_small(op.get("v", 1)))
     if k == "broadcast":
         return W.cemi_ldata(code, PEER, 0, group=True, tpci_apci=bytes((0x01, 0x00)))  # A_IndividualAddress_Read
-    dst = OWN if dk == "own" else FOREIGN
+    dst = OWN if dk == "own" else op.get("fdst", FOREIGN)
     if k == "individual":
         return W.cemi_ldata(code, PEER, dst, group=False, tpci_apci=bytes((0x03, 0x00)), ctrl1=0xB0)
     if k == "connected":
@@ -93,6 +93,13 @@ def gen(seed: int, tier: str) -> dict[str, Any]:
         ops.append({"t": round(rng.choice([rng.uniform(0, horizon), rng.uniform(0, 0.01)]), 6), "op": "frame",
                     "code": code, "tpci": tp, "dst": rng.choice(["own", "own", "foreign"]),
                     "seq": rng.randrange(16), "sub": rng.randrange(3), "v": rng.randrange(64)})
+        if ops[-1]["dst"] == "foreign" and rng.random() < 0.5:
+            # other devices' addresses at the edges of the 16-bit space and next to the own one (no individual address is a
+            # broadcast address)
+            ops[-1]["fdst"] = rng.choice([0x0000, 0x0001, 0x00FF, 0x0100, 0xFFFF, 0xFF00, OWN - 1, OWN + 1, OWN ^ 0x8000,
+                                          rng.randrange(0x10000)])
+            if ops[-1]["fdst"] == OWN:
+                ops[-1]["fdst"] = FOREIGN
         if tp == "group" and rng.random() < 0.25:
             # group addresses at the edges of the 16-bit space (only 0 is the broadcast address)
             ops[-1]["ga"] = rng.choice([0x0001, 0x00FF, 0x0100, 0x07FF, 0x0800, 0x7FFF, 0x8000, 0x8001, 0xFF00, 0xFFFF,
